@@ -6,7 +6,7 @@ HOOK_COMMITS = ["afa3aa0"]
 # property -> (Lean module, [theorems that decide it]); audited with `#print axioms` on every run
 THEOREMS = {
     "C01": ("TrVerif.Props.C01", ["Tr.C01", "Tr.C01_with", "Tr.C01_modulo_cleanup", "Tr.cleanupPreserves", "Tr.revScanList_inv", "Tr.reconLoop_valid", "Tr.emit_valid"]),
-    "C02": ("TrVerif.Props.C02", ["Tr.C02_partial", "Tr.C02_times", "Tr.stepsOfLegs_transfer"]),
+    "C02": ("TrVerif.Props.C02", ["Tr.C02_partial", "Tr.C02_times", "Tr.C02_arrival", "Tr.C02_first_wait", "Tr.stepsOfLegs_transfer", "Tr.bestEgress_spec"]),
     "C06": ("TrVerif.Props.C06", ["Tr.C06_totals", "Tr.C06_route"]),
     "C07": ("TrVerif.Props.C07", ["Tr.C07_route_strings", "Tr.C07_accessibility_strings", "Tr.C07_enum_order", "Tr.C07_access"]),
     "C10": ("TrVerif.Props.C10", ["Tr.C10_alternatives"]),
@@ -47,11 +47,12 @@ _reg("C01", "PROOF (full, over the model): Tr.C01 - for every well-formed datase
      "wait); Tr.C01_with gives the same for every recalculation of the alternatives search. Proved by a reverse-scan invariant, validity of the "
      "reconstruction, preservation by the four clean-up rewrites and the emission pass. " + _M + "; " + _O + ".",
      "Lean 4 theorem (invariant + refinement chain) over a hand-written model + differential correspondence")
-_reg("C02", "PROOF (partial): Tr.C02_partial / Tr.C02_times - every ridden trip is admitted by the scenario, access and egress entries and every transfer "
-     "walk lie within their maxima, the access is accepted no earlier than 0:00 and within max_travel_time back from the requested arrival. NOT proved: "
-     "departure >= requested departure, the forward span bound and the first-waiting cap; these clauses are decided per answer by the oracle "
-     "check_limits. " + _M + ".",
-     "Lean 4 theorem (partial) + differential correspondence + executable oracle for the unproved clauses")
+_reg("C02", "PROOF (all clauses, over the model): Tr.C02_partial - every ridden trip is admitted by the scenario, access and egress entries and every transfer walk lie within their "
+     "maxima; Tr.C02_times - never leaves before the requested departure nor before 0:00, arrival-time span <= max_travel_time; Tr.C02_arrival - never arrives after the requested arrival, "
+     "departure-time span <= max_travel_time (hypothesis: the router lists each stop at most once around the destination); Tr.C02_first_wait - the first boarding, counted from requested "
+     "departure + access walk, is within max_first_waiting_time unless the cap is below the minimum waiting time in force (documented reading, DESIGN 0.5). Carried through the reverse-scan "
+     "invariant, the reconstruction, the four clean-up rewrites and the emission. " + _M + "; " + _O + " (check_limits).",
+     "Lean 4 theorems (invariant + refinement chain) + differential correspondence + executable oracle")
 for _pid, _what in (("C03", "earliest arrival (reference forward solver over all admissible journeys)"),
                     ("C04", "latest departure (reference backward solver)"),
                     ("C05", "latest departure for the reported arrival (reference backward solver from the reported arrival)"),
